@@ -288,10 +288,19 @@ func runPortfolio(file string, timeoutS int, which []string) solveResult {
 	}
 	sort.Strings(all)
 	res := "unknown"
-	if strings.Contains(strings.Join(all, " "), "timeout") {
+	joined := strings.Join(all, " ")
+	if strings.Contains(joined, "timeout") {
 		res = "timeout"
 	}
-	return solveResult{res, strings.Join(all, ","), last.raw, time.Since(t0).Seconds()}
+	if strings.Count(joined, "(error") >= n {
+		// every solver rejected the query: a defect of the VC generator, not a verdict
+		return solveResult{"error", "all", truncate(last.raw, 300), time.Since(t0).Seconds()}
+	}
+	var short []string
+	for _, a := range all {
+		short = append(short, truncate(a, 40))
+	}
+	return solveResult{res, strings.Join(short, ","), last.raw, time.Since(t0).Seconds()}
 }
 
 var valRe = regexp.MustCompile(`\(\s*([^\s()]+|\([^()]*\)|\|[^|]*\|)\s+(.*)\)\s*$`)
